@@ -4,6 +4,7 @@ C12 — partial dates, times and date-times: text round trip, reported length, r
 
 Model: `DicomModel/Model/Partial.lean` (constructors, `to_encoded`, the three partial parsers,
 `da/tm/dt_byte_len`, `AsRange::earliest/latest`, the three range parsers, chrono's calendar).
+Leap seconds (second = 60) are valid values with bounds in chrono's representation (/repo fix 011408a).
 "Valid value" = a value the public constructors (and `from_hmsf`, reached through the parser)
 accept (`*_valid_iff_constructible`); for a date-time additionally the offset is a DICOM offset
 (whole minutes, −12:00 … +14:00: the only ones the DT text format can carry — see
@@ -218,148 +219,207 @@ theorem date_instant_between (v : DicomDate) (hv : v.Valid) {e l : NaiveDate}
 
 /-! ## range bounds: times -/
 
-/-- the second is not a leap second (chrono's `from_hms_micro_opt` has no second 60) -/
-def DicomTime.NonLeap (v : DicomTime) : Prop := ∀ s, v.sec = some s → s ≤ 59
+/-- DICOM reading of a chrono time of day: chrono stores the leap second `hh:mm:60.f` as second 59
+with `1_000_000 + f` microseconds (the code's own `TryFrom<&NaiveTime>` reads it back like this) -/
+def NaiveTime.dicomSec (t : NaiveTime) : Nat := if 1000000 ≤ t.f then 60 else t.s
+def NaiveTime.dicomFrac (t : NaiveTime) : Nat := if 1000000 ≤ t.f then t.f - 1000000 else t.f
 
 /-- a time of day agrees with every component the partial time knows; a fraction of `fp` digits
 fixes the first `fp` digits of the microseconds -/
 def DicomTime.Matches (v : DicomTime) (t : NaiveTime) : Prop :=
-  t.h = v.hr ∧ (∀ m, v.min = some m → t.m = m) ∧ (∀ s, v.sec = some s → t.s = s) ∧
-  (∀ f fp, v.fracAndPrecision = some (f, fp) → t.f / 10 ^ (6 - fp) = f)
+  t.h = v.hr ∧ (∀ m, v.min = some m → t.m = m) ∧ (∀ s, v.sec = some s → t.dicomSec = s) ∧
+  (∀ f fp, v.fracAndPrecision = some (f, fp) → t.dicomFrac / 10 ^ (6 - fp) = f)
 
-theorem time_earliest_eq {v : DicomTime} (hv : v.Valid) (hn : v.NonLeap) :
-    v.earliest = some ⟨v.hr, v.min.getD 0, v.sec.getD 0,
-      match v.fracAndPrecision with | none => 0 | some (f, fp) => f * 10 ^ (6 - fp)⟩ := by
-  cases v with
-  | hour h => simp only [DicomTime.Valid] at hv; simp [DicomTime.earliest, DicomTime.hr, DicomTime.min, DicomTime.sec, DicomTime.fracAndPrecision, fromHmsMicroOpt_eq]; omega
-  | minute h m => simp only [DicomTime.Valid] at hv; simp [DicomTime.earliest, DicomTime.hr, DicomTime.min, DicomTime.sec, DicomTime.fracAndPrecision, fromHmsMicroOpt_eq]; omega
-  | second h m s =>
-    simp only [DicomTime.Valid] at hv
-    have := hn s rfl
-    simp [DicomTime.earliest, DicomTime.hr, DicomTime.min, DicomTime.sec, DicomTime.fracAndPrecision, fromHmsMicroOpt_eq]; omega
-  | fraction h m s f fp =>
-    simp only [DicomTime.Valid] at hv
-    have := hn s rfl
-    obtain ⟨hh, hm, hs, h1, h6, hf⟩ := hv
-    obtain ⟨hu, hlt⟩ := frac_bounds h1 h6 hf
-    simp only [DicomTime.earliest, DicomTime.hr, DicomTime.min, DicomTime.sec, DicomTime.fracAndPrecision,
-      Option.getD_some, fromHmsMicroOpt_eq]
-    rw [if_pos]
-    refine ⟨by omega, by omega, by omega, Or.inl ?_⟩
-    generalize 10 ^ (6 - fp) = u at *
-    generalize f * u = w at *
-    omega
+/-- the first instant of the value: missing components are 0; second 60 in chrono's representation -/
+def DicomTime.lo : DicomTime → NaiveTime
+  | .hour h => ⟨h, 0, 0, 0⟩
+  | .minute h m => ⟨h, m, 0, 0⟩
+  | .second h m s => if s = 60 then ⟨h, m, 59, 1000000⟩ else ⟨h, m, s, 0⟩
+  | .fraction h m s f fp =>
+    if s = 60 then ⟨h, m, 59, f * 10 ^ (6 - fp) + 1000000⟩ else ⟨h, m, s, f * 10 ^ (6 - fp)⟩
 
-theorem time_latest_eq {v : DicomTime} (hv : v.Valid) (hn : v.NonLeap) :
-    v.latest = some ⟨v.hr, v.min.getD 59, v.sec.getD 59,
-      match v.fracAndPrecision with | none => 999999 | some (f, fp) => f * 10 ^ (6 - fp) + 10 ^ (6 - fp) - 1⟩ := by
-  cases v with
-  | hour h => simp only [DicomTime.Valid] at hv; simp [DicomTime.latest, DicomTime.hr, DicomTime.min, DicomTime.sec, DicomTime.fracAndPrecision, fromHmsMicroOpt_eq]; omega
-  | minute h m => simp only [DicomTime.Valid] at hv; simp [DicomTime.latest, DicomTime.hr, DicomTime.min, DicomTime.sec, DicomTime.fracAndPrecision, fromHmsMicroOpt_eq]; omega
-  | second h m s =>
-    simp only [DicomTime.Valid] at hv
-    have := hn s rfl
-    simp [DicomTime.latest, DicomTime.hr, DicomTime.min, DicomTime.sec, DicomTime.fracAndPrecision, fromHmsMicroOpt_eq]; omega
-  | fraction h m s f fp =>
-    simp only [DicomTime.Valid] at hv
-    have := hn s rfl
-    obtain ⟨hh, hm, hs, h1, h6, hf⟩ := hv
-    obtain ⟨hu, hlt⟩ := frac_bounds h1 h6 hf
-    simp only [DicomTime.latest, DicomTime.hr, DicomTime.min, DicomTime.sec, DicomTime.fracAndPrecision,
-      Option.getD_some, fromHmsMicroOpt_eq]
-    rw [if_pos]
-    exact ⟨by omega, by omega, by omega, Or.inl hlt⟩
+/-- the last instant of the value: missing components are maximal (minute/second 59, all
+remaining fraction digits 9) -/
+def DicomTime.hi : DicomTime → NaiveTime
+  | .hour h => ⟨h, 59, 59, 999999⟩
+  | .minute h m => ⟨h, m, 59, 999999⟩
+  | .second h m s => if s = 60 then ⟨h, m, 59, 1999999⟩ else ⟨h, m, s, 999999⟩
+  | .fraction h m s f fp =>
+    if s = 60 then ⟨h, m, 59, f * 10 ^ (6 - fp) + 10 ^ (6 - fp) - 1 + 1000000⟩
+    else ⟨h, m, s, f * 10 ^ (6 - fp) + 10 ^ (6 - fp) - 1⟩
 
-/-- a leap second (second = 60, which the constructors accept) has no bounds in the code:
-`NaiveTime::from_hms_micro_opt(h, m, 60, _)` is `None` -/
-theorem time_leap_no_bounds (v : DicomTime) (h60 : v.sec = some 60) : v.earliest = none ∧ v.latest = none := by
-  cases v <;> simp [DicomTime.sec] at h60 <;> subst h60 <;>
-    simp [DicomTime.earliest, DicomTime.latest, DicomTime.hr, DicomTime.min, DicomTime.sec, fromHmsMicroOpt_eq]
-
-theorem time_bounds (v : DicomTime) (hv : v.Valid) (hn : v.NonLeap) :
-    ∃ e l, v.earliest = some e ∧ v.latest = some l ∧ e.Valid ∧ l.Valid ∧
-      v.Matches e ∧ v.Matches l ∧ e.le l = true := by
-  refine ⟨_, _, time_earliest_eq hv hn, time_latest_eq hv hn, ?_⟩
+theorem time_earliest_eq {v : DicomTime} (hv : v.Valid) : v.earliest = some v.lo := by
   cases v with
   | hour h =>
     simp only [DicomTime.Valid] at hv
-    simp [NaiveTime.Valid, DicomTime.Matches, DicomTime.hr, DicomTime.min, DicomTime.sec, DicomTime.fracAndPrecision,
-      NaiveTime.le_iff, NaiveTime.secs]; omega
+    simp [DicomTime.earliest, DicomTime.lo, DicomTime.hr, DicomTime.min, DicomTime.sec, DicomTime.fracAndPrecision,
+      fromHmsMicroOpt_eq]; omega
   | minute h m =>
     simp only [DicomTime.Valid] at hv
-    simp [NaiveTime.Valid, DicomTime.Matches, DicomTime.hr, DicomTime.min, DicomTime.sec, DicomTime.fracAndPrecision,
-      NaiveTime.le_iff, NaiveTime.secs]; omega
+    simp [DicomTime.earliest, DicomTime.lo, DicomTime.hr, DicomTime.min, DicomTime.sec, DicomTime.fracAndPrecision,
+      fromHmsMicroOpt_eq]; omega
   | second h m s =>
     simp only [DicomTime.Valid] at hv
-    have := hn s rfl
-    simp [NaiveTime.Valid, DicomTime.Matches, DicomTime.hr, DicomTime.min, DicomTime.sec, DicomTime.fracAndPrecision,
-      NaiveTime.le_iff, NaiveTime.secs]; omega
+    by_cases h60 : s = 60
+    · subst h60
+      simp only [DicomTime.earliest, DicomTime.lo, DicomTime.hr, DicomTime.min, DicomTime.sec,
+        DicomTime.fracAndPrecision, Option.getD_some, if_true, fromHmsMicroOpt_eq]
+      rw [if_pos]; exact ⟨by omega, by omega, by omega, Or.inr ⟨trivial, by omega⟩⟩
+    · simp [DicomTime.earliest, DicomTime.lo, DicomTime.hr, DicomTime.min, DicomTime.sec,
+        DicomTime.fracAndPrecision, fromHmsMicroOpt_eq, h60]; omega
   | fraction h m s f fp =>
     simp only [DicomTime.Valid] at hv
-    have := hn s rfl
     obtain ⟨hh, hm, hs, h1, h6, hf⟩ := hv
     obtain ⟨hu, hlt⟩ := frac_bounds h1 h6 hf
-    simp only [NaiveTime.Valid, DicomTime.Matches, DicomTime.hr, DicomTime.min, DicomTime.sec,
-      DicomTime.fracAndPrecision, NaiveTime.le_iff, NaiveTime.secs, Option.getD_some, Option.some.injEq,
-      Prod.mk.injEq, and_imp]
-    have k1 : f * 10 ^ (6 - fp) / 10 ^ (6 - fp) = f := by
-      rw [frac_match _ _ h1 h6]; generalize 10 ^ (6 - fp) = u at *; generalize f * u = w at *; omega
-    have k2 : (f * 10 ^ (6 - fp) + 10 ^ (6 - fp) - 1) / 10 ^ (6 - fp) = f := by
-      rw [frac_match _ _ h1 h6]; generalize 10 ^ (6 - fp) = u at *; generalize f * u = w at *; omega
-    have k3 : f * 10 ^ (6 - fp) < 1000000 ∧ f * 10 ^ (6 - fp) ≤ f * 10 ^ (6 - fp) + 10 ^ (6 - fp) - 1 := by
+    have k : f * 10 ^ (6 - fp) < 1000000 := by
       generalize 10 ^ (6 - fp) = u at *; generalize f * u = w at *; omega
-    refine ⟨⟨by omega, by omega, by omega, k3.1⟩, ⟨by omega, by omega, by omega, hlt⟩,
-      ⟨trivial, fun _ e => e, fun _ e => e, ?_⟩, ⟨trivial, fun _ e => e, fun _ e => e, ?_⟩, Or.inr ⟨trivial, k3.2⟩⟩
-    · intro f' fp' e1 e2; subst e1 e2; exact k1
-    · intro f' fp' e1 e2; subst e1 e2; exact k2
+    by_cases h60 : s = 60
+    · subst h60
+      simp only [DicomTime.earliest, DicomTime.lo, DicomTime.hr, DicomTime.min, DicomTime.sec,
+        DicomTime.fracAndPrecision, Option.getD_some, if_true, fromHmsMicroOpt_eq]
+      rw [if_pos]; exact ⟨by omega, by omega, by omega, Or.inr ⟨trivial, by omega⟩⟩
+    · simp only [DicomTime.earliest, DicomTime.lo, DicomTime.hr, DicomTime.min, DicomTime.sec,
+        DicomTime.fracAndPrecision, Option.getD_some, h60, if_false, fromHmsMicroOpt_eq]
+      rw [if_pos]; exact ⟨by omega, by omega, by omega, Or.inl k⟩
 
-/-- every (non-leap) time of day consistent with the value lies between its bounds — and only those -/
-theorem time_instant_between (v : DicomTime) (hv : v.Valid) {e l : NaiveTime}
-    (he : v.earliest = some e) (hl : v.latest = some l) (t : NaiveTime) (ht : t.Valid) :
-    v.Matches t ↔ (e.le t = true ∧ t.le l = true) := by
-  have hn : v.NonLeap := by
-    intro s hs
-    cases v <;> simp [DicomTime.sec] at hs <;> subst hs <;>
-      simp [DicomTime.earliest, DicomTime.hr, DicomTime.min, DicomTime.sec, fromHmsMicroOpt_eq] at he <;> omega
-  rw [time_earliest_eq hv hn] at he
-  rw [time_latest_eq hv hn] at hl
-  simp only [Option.some.injEq] at he hl
-  subst he hl
+theorem time_latest_eq {v : DicomTime} (hv : v.Valid) : v.latest = some v.hi := by
+  cases v with
+  | hour h =>
+    simp only [DicomTime.Valid] at hv
+    simp [DicomTime.latest, DicomTime.hi, DicomTime.hr, DicomTime.min, DicomTime.sec, DicomTime.fracAndPrecision,
+      fromHmsMicroOpt_eq]; omega
+  | minute h m =>
+    simp only [DicomTime.Valid] at hv
+    simp [DicomTime.latest, DicomTime.hi, DicomTime.hr, DicomTime.min, DicomTime.sec, DicomTime.fracAndPrecision,
+      fromHmsMicroOpt_eq]; omega
+  | second h m s =>
+    simp only [DicomTime.Valid] at hv
+    by_cases h60 : s = 60
+    · subst h60
+      simp only [DicomTime.latest, DicomTime.hi, DicomTime.hr, DicomTime.min, DicomTime.sec,
+        DicomTime.fracAndPrecision, Option.getD_some, if_true, fromHmsMicroOpt_eq]
+      rw [if_pos]; exact ⟨by omega, by omega, by omega, Or.inr ⟨trivial, by omega⟩⟩
+    · simp [DicomTime.latest, DicomTime.hi, DicomTime.hr, DicomTime.min, DicomTime.sec,
+        DicomTime.fracAndPrecision, fromHmsMicroOpt_eq, h60]; omega
+  | fraction h m s f fp =>
+    simp only [DicomTime.Valid] at hv
+    obtain ⟨hh, hm, hs, h1, h6, hf⟩ := hv
+    obtain ⟨hu, hlt⟩ := frac_bounds h1 h6 hf
+    by_cases h60 : s = 60
+    · subst h60
+      simp only [DicomTime.latest, DicomTime.hi, DicomTime.hr, DicomTime.min, DicomTime.sec,
+        DicomTime.fracAndPrecision, Option.getD_some, if_true, fromHmsMicroOpt_eq]
+      rw [if_pos]; exact ⟨by omega, by omega, by omega, Or.inr ⟨trivial, by omega⟩⟩
+    · simp only [DicomTime.latest, DicomTime.hi, DicomTime.hr, DicomTime.min, DicomTime.sec,
+        DicomTime.fracAndPrecision, Option.getD_some, h60, if_false, fromHmsMicroOpt_eq]
+      rw [if_pos]; exact ⟨by omega, by omega, by omega, Or.inl hlt⟩
+
+/-- membership of a chrono time of day in the value, spelled out with `lo`/`hi` windows:
+the common core of `time_bounds` and `time_instant_between` -/
+theorem time_matches_iff (v : DicomTime) (hv : v.Valid) (t : NaiveTime) (ht : t.Valid)
+    (hs : t.f < 1000000 ∨ v.sec.isSome = true) :
+    v.Matches t ↔ (v.lo.le t = true ∧ t.le v.hi = true) := by
   obtain ⟨th, tm, ts, tf⟩ := t
   simp only [NaiveTime.Valid] at ht
   cases v with
   | hour h =>
-    simp [DicomTime.Matches, DicomTime.hr, DicomTime.min, DicomTime.sec, DicomTime.fracAndPrecision,
-      NaiveTime.le_iff, NaiveTime.secs]; omega
+    have hs : tf < 1000000 := by simpa [DicomTime.sec] using hs
+    have nl : ¬ 1000000 ≤ tf := by omega
+    simp [DicomTime.Matches, DicomTime.lo, DicomTime.hi, DicomTime.hr, DicomTime.min, DicomTime.sec,
+      DicomTime.fracAndPrecision, NaiveTime.le_iff, NaiveTime.secs]; omega
   | minute h m =>
+    have hs : tf < 1000000 := by simpa [DicomTime.sec] using hs
     simp only [DicomTime.Valid] at hv
-    simp [DicomTime.Matches, DicomTime.hr, DicomTime.min, DicomTime.sec, DicomTime.fracAndPrecision,
-      NaiveTime.le_iff, NaiveTime.secs]; omega
+    simp [DicomTime.Matches, DicomTime.lo, DicomTime.hi, DicomTime.hr, DicomTime.min, DicomTime.sec,
+      DicomTime.fracAndPrecision, NaiveTime.le_iff, NaiveTime.secs]; omega
   | second h m s =>
     simp only [DicomTime.Valid] at hv
-    have := hn s rfl
-    simp [DicomTime.Matches, DicomTime.hr, DicomTime.min, DicomTime.sec, DicomTime.fracAndPrecision,
-      NaiveTime.le_iff, NaiveTime.secs]; omega
+    by_cases h60 : s = 60
+    · subst h60
+      by_cases hl : 1000000 ≤ tf <;>
+        simp [DicomTime.Matches, DicomTime.lo, DicomTime.hi, DicomTime.hr, DicomTime.min, DicomTime.sec,
+          DicomTime.fracAndPrecision, NaiveTime.le_iff, NaiveTime.secs, NaiveTime.dicomSec, hl] <;> omega
+    · by_cases hl : 1000000 ≤ tf <;>
+        simp [DicomTime.Matches, DicomTime.lo, DicomTime.hi, DicomTime.hr, DicomTime.min, DicomTime.sec,
+          DicomTime.fracAndPrecision, NaiveTime.le_iff, NaiveTime.secs, NaiveTime.dicomSec, hl, h60] <;> omega
   | fraction h m s f fp =>
     simp only [DicomTime.Valid] at hv
-    have := hn s rfl
-    obtain ⟨hh, hm, hs, h1, h6, hf⟩ := hv
+    obtain ⟨hh, hm, hsv, h1, h6, hf⟩ := hv
     obtain ⟨hu, hlt⟩ := frac_bounds h1 h6 hf
     simp only [DicomTime.Matches, DicomTime.hr, DicomTime.min, DicomTime.sec, DicomTime.fracAndPrecision,
-      NaiveTime.le_iff, NaiveTime.secs, Option.getD_some, Option.some.injEq, Prod.mk.injEq, and_imp]
-    have key : (∀ f' fp', f = f' → fp = fp' → tf / 10 ^ (6 - fp') = f') ↔
-        (f * 10 ^ (6 - fp) ≤ tf ∧ tf ≤ f * 10 ^ (6 - fp) + 10 ^ (6 - fp) - 1) := by
-      rw [← frac_match tf f h1 h6]
+      Option.some.injEq, Prod.mk.injEq, and_imp]
+    have key : (∀ f' fp', f = f' → fp = fp' → NaiveTime.dicomFrac ⟨th, tm, ts, tf⟩ / 10 ^ (6 - fp') = f') ↔
+        (f * 10 ^ (6 - fp) ≤ NaiveTime.dicomFrac ⟨th, tm, ts, tf⟩ ∧
+          NaiveTime.dicomFrac ⟨th, tm, ts, tf⟩ ≤ f * 10 ^ (6 - fp) + 10 ^ (6 - fp) - 1) := by
+      rw [← frac_match _ f h1 h6]
       exact ⟨fun a => a f fp rfl rfl, fun a f' fp' e1 e2 => by subst e1 e2; exact a⟩
-    rw [key]
+    have k2 : (∀ s', s = s' → NaiveTime.dicomSec ⟨th, tm, ts, tf⟩ = s') ↔ NaiveTime.dicomSec ⟨th, tm, ts, tf⟩ = s :=
+      ⟨fun a => a s rfl, fun a s' e => by subst e; exact a⟩
+    have k3 : (∀ m', m = m' → tm = m') ↔ tm = m := ⟨fun a => a m rfl, fun a m' e => by subst e; exact a⟩
+    rw [key, k2, k3]
+    simp only [NaiveTime.dicomFrac, NaiveTime.dicomSec, DicomTime.lo, DicomTime.hi]
     generalize 10 ^ (6 - fp) = u at *; generalize f * u = w at *
-    constructor
-    · rintro ⟨rfl, a, b, c⟩
-      have := a m rfl; have := b s rfl
-      omega
-    · intro a
-      refine ⟨by omega, fun _ e => by omega, fun _ e => by omega, by omega⟩
+    by_cases h60 : s = 60
+    · subst h60
+      by_cases hl : 1000000 ≤ tf <;> simp [NaiveTime.le_iff, NaiveTime.secs, hl] <;> omega
+    · by_cases hl : 1000000 ≤ tf <;> simp [NaiveTime.le_iff, NaiveTime.secs, hl, h60] <;> omega
 
+theorem lo_hi_valid {v : DicomTime} (hv : v.Valid) : v.lo.Valid ∧ v.hi.Valid ∧ v.lo.le v.hi = true := by
+  cases v with
+  | hour h => simp only [DicomTime.Valid] at hv; simp [DicomTime.lo, DicomTime.hi, NaiveTime.Valid, NaiveTime.le_iff, NaiveTime.secs]; omega
+  | minute h m => simp only [DicomTime.Valid] at hv; simp [DicomTime.lo, DicomTime.hi, NaiveTime.Valid, NaiveTime.le_iff, NaiveTime.secs]; omega
+  | second h m s =>
+    simp only [DicomTime.Valid] at hv
+    by_cases h60 : s = 60 <;>
+      simp [DicomTime.lo, DicomTime.hi, NaiveTime.Valid, NaiveTime.le_iff, NaiveTime.secs, h60] <;> omega
+  | fraction h m s f fp =>
+    simp only [DicomTime.Valid] at hv
+    obtain ⟨hh, hm, hsv, h1, h6, hf⟩ := hv
+    obtain ⟨hu, hlt⟩ := frac_bounds h1 h6 hf
+    simp only [DicomTime.lo, DicomTime.hi]
+    generalize 10 ^ (6 - fp) = u at *; generalize f * u = w at *
+    by_cases h60 : s = 60 <;>
+      simp [NaiveTime.Valid, NaiveTime.le_iff, NaiveTime.secs, h60] <;> omega
+
+/-- every valid time — leap seconds included — has both bounds; they are times chrono can
+represent, agree with all known components, and are ordered -/
+theorem time_bounds (v : DicomTime) (hv : v.Valid) :
+    ∃ e l, v.earliest = some e ∧ v.latest = some l ∧ e.Valid ∧ l.Valid ∧
+      v.Matches e ∧ v.Matches l ∧ e.le l = true := by
+  obtain ⟨a, b, c⟩ := lo_hi_valid hv
+  have hlo : v.lo.f < 1000000 ∨ v.sec.isSome = true := by
+    cases v <;> simp [DicomTime.lo, DicomTime.sec]
+  have hhi : v.hi.f < 1000000 ∨ v.sec.isSome = true := by
+    cases v <;> simp [DicomTime.hi, DicomTime.sec]
+  refine ⟨_, _, time_earliest_eq hv, time_latest_eq hv, a, b, ?_, ?_, c⟩
+  · rw [time_matches_iff v hv _ a hlo]
+    exact ⟨by simp [NaiveTime.le_iff], c⟩
+  · rw [time_matches_iff v hv _ b hhi]
+    exact ⟨c, by simp [NaiveTime.le_iff]⟩
+
+/-- a time of day chrono can represent is consistent with the value iff it lies between the bounds.
+Side condition: the instant is not itself a leap second unless the value knows its second (a value
+of hour or minute precision ends at `…:59.999999`, see `minute_precision_ends_before_leap_second`) -/
+theorem time_instant_between (v : DicomTime) (hv : v.Valid) {e l : NaiveTime}
+    (he : v.earliest = some e) (hl : v.latest = some l) (t : NaiveTime) (ht : t.Valid)
+    (hs : t.f < 1000000 ∨ v.sec.isSome = true) :
+    v.Matches t ↔ (e.le t = true ∧ t.le l = true) := by
+  rw [time_earliest_eq hv] at he
+  rw [time_latest_eq hv] at hl
+  cases he; cases hl
+  exact time_matches_iff v hv t ht hs
+
+/-- the interpretation the code takes: `2359` (minute precision) ends at 23:59:59.999999, the leap
+second 23:59:60.5 of that minute (chrono: 23:59:59 + 1 500 000 µs) matches its components but is
+after `latest` -/
+theorem minute_precision_ends_before_leap_second :
+    (DicomTime.minute 23 59).Matches ⟨23, 59, 59, 1500000⟩ ∧
+      (DicomTime.minute 23 59).latest = some ⟨23, 59, 59, 999999⟩ ∧
+      NaiveTime.le ⟨23, 59, 59, 1500000⟩ ⟨23, 59, 59, 999999⟩ = false := by
+  refine ⟨⟨rfl, ?_, ?_, ?_⟩, by decide, by decide⟩
+  · intro m e; cases e; rfl
+  · intro s e; cases e
+  · intro f fp e; cases e
 
 /-! ## range bounds: date-times -/
 
@@ -412,7 +472,7 @@ theorem dt_latest_eq {v : DicomDateTime} {dl : NaiveDate} (hdl : v.date.latest =
 
 theorem midnight_le {t : NaiveTime} : midnight.le t = true := by
   simp [NaiveTime.le_iff, midnight, NaiveTime.secs]; omega
-theorem le_lastMicro {t : NaiveTime} (ht : t.Valid) : t.le lastMicro = true := by
+theorem le_lastMicro {t : NaiveTime} (ht : t.Valid) (hf : t.f < 1000000) : t.le lastMicro = true := by
   simp only [NaiveTime.Valid] at ht
   simp [NaiveTime.le_iff, lastMicro, NaiveTime.secs]; omega
 theorem midnight_valid : midnight.Valid := by simp [midnight, NaiveTime.Valid]
@@ -433,10 +493,9 @@ theorem precise_date_bounds {d : DicomDate} (hp : d.isPrecise = true) : d.latest
   cases d <;> simp [DicomDate.isPrecise, DicomDate.dy] at hp
   simp [DicomDate.latest, DicomDate.earliest, DicomDate.yr, DicomDate.mon, DicomDate.dy]
 
-/-- bounds of a valid date-time that denotes a day and has no leap second: both exist, are real
+/-- bounds of a valid date-time that denotes a day (leap seconds included): both exist, are real
 instants carrying the value's offset, agree with all known components, and are ordered -/
-theorem datetime_bounds (v : DicomDateTime) (hv : v.Valid) (hd : v.date.Denotes)
-    (hn : ∀ t, v.time = some t → t.NonLeap) :
+theorem datetime_bounds (v : DicomDateTime) (hv : v.Valid) (hd : v.date.Denotes) :
     ∃ e l, v.earliest = some e ∧ v.latest = some l ∧ e.Valid ∧ l.Valid ∧
       v.Matches e ∧ v.Matches l ∧ e.le? l = some true := by
   obtain ⟨de, dl, hde, hdl, vde, vdl, mde, mdl, hdle⟩ := date_bounds v.date hv.1 hd
@@ -451,7 +510,7 @@ theorem datetime_bounds (v : DicomDateTime) (hv : v.Valid) (hd : v.date.Denotes)
     · simp [hdle, e]
   | some t =>
     obtain ⟨htv, hp⟩ := hv.2.1 t ht
-    obtain ⟨te, tl, hte, htl, vte, vtl, mte, mtl, htle⟩ := time_bounds t htv (hn t ht)
+    obtain ⟨te, tl, hte, htl, vte, vtl, mte, mtl, htle⟩ := time_bounds t htv
     have hsame : dl = de := by
       have := precise_date_bounds hp; rw [hde, hdl] at this; exact Option.some.inj this
     subst hsame
@@ -465,7 +524,8 @@ theorem datetime_bounds (v : DicomDateTime) (hv : v.Valid) (hd : v.date.Denotes)
 between the bounds (`PartialOrd` of `PreciseDateTime`, i.e. UTC order for aware values) — and
 only those do -/
 theorem datetime_instant_between (v : DicomDateTime) (hv : v.Valid) {e l : Precise}
-    (he : v.earliest = some e) (hl : v.latest = some l) (p : Precise) (hp : p.Valid) (ho : p.offset = v.tz) :
+    (he : v.earliest = some e) (hl : v.latest = some l) (p : Precise) (hp : p.Valid) (ho : p.offset = v.tz)
+    (hs : p.time.f < 1000000 ∨ ∃ t, v.time = some t ∧ t.sec.isSome = true) :
     v.Matches p ↔ (e.le? p = some true ∧ p.le? l = some true) := by
   -- the date bounds exist
   have hde : ∃ de, v.date.earliest = some de := by
@@ -491,8 +551,12 @@ theorem datetime_instant_between (v : DicomDateTime) (hv : v.Valid) {e l : Preci
   | none =>
     simp only [ht, Option.some.injEq] at he hl
     subst he hl
+    have hnl : p.time.f < 1000000 := by
+      rcases hs with hs | ⟨t, e, _⟩
+      · exact hs
+      · rw [ht] at e; cases e
     rw [le_mkPrecise v.tz vde hp.1 midnight_valid hp.2, le_mkPrecise v.tz hp.1 vdl hp.2 lastMicro_valid]
-    simp only [Option.some.injEq, naiveLe_iff, midnight_le, le_lastMicro hp.2, and_true]
+    simp only [Option.some.injEq, naiveLe_iff, midnight_le, le_lastMicro hp.2 hnl, and_true]
     rw [hdm]
     simp only [reduceCtorEq, false_imp_iff, implies_true, and_true]
     constructor
@@ -526,13 +590,13 @@ theorem datetime_instant_between (v : DicomDateTime) (hv : v.Valid) {e l : Preci
       | some tl =>
         simp only [hte, htl, Option.map_some, Option.some.injEq] at he hl
         subst he hl
-        have hn : t.NonLeap := by
-          intro s hs
-          cases t <;> simp [DicomTime.sec] at hs <;> subst hs <;>
-            simp [DicomTime.earliest, DicomTime.hr, DicomTime.min, DicomTime.sec, fromHmsMicroOpt_eq] at hte <;> omega
-        obtain ⟨te', tl', hte', htl', vte, vtl, -, -, -⟩ := time_bounds t htv hn
+        obtain ⟨te', tl', hte', htl', vte, vtl, -, -, -⟩ := time_bounds t htv
         rw [hte] at hte'; rw [htl] at htl'; cases hte'; cases htl'
-        have htm := time_instant_between t htv hte htl p.time hp.2
+        have hs' : p.time.f < 1000000 ∨ t.sec.isSome = true := by
+          rcases hs with hs | ⟨t', e, h'⟩
+          · exact Or.inl hs
+          · rw [ht] at e; cases e; exact Or.inr h'
+        have htm := time_instant_between t htv hte htl p.time hp.2 hs'
         rw [le_mkPrecise v.tz vde hp.1 vte hp.2, le_mkPrecise v.tz hp.1 vde hp.2 vtl]
         simp only [Option.some.injEq, naiveLe_iff]
         rw [hdm]
@@ -560,15 +624,6 @@ theorem datetime_instant_between (v : DicomDateTime) (hv : v.Valid) {e l : Preci
           · rw [← e]; simp [NaiveDate.le_iff]
           · rw [← e]; simp [NaiveDate.le_iff]
           · intro t' e'; cases e'; exact htm.mpr ⟨a2, b2⟩
-
-/-- a date-time whose time is a leap second has no bounds in the code -/
-theorem datetime_leap_no_bounds (v : DicomDateTime) (t : DicomTime) (ht : v.time = some t) (h60 : t.sec = some 60) :
-    v.earliest = none ∧ v.latest = none := by
-  obtain ⟨a, b⟩ := time_leap_no_bounds t h60
-  constructor
-  · simp only [DicomDateTime.earliest, ht, a]; cases v.date.earliest <;> rfl
-  · simp only [DicomDateTime.latest, ht, b]; cases v.date.latest <;> rfl
-
 
 /-! ## range text `A-B` -/
 
@@ -979,10 +1034,13 @@ theorem datetime_range_open_end (amb : Ambig) (a : DicomDateTime) (ha : a.Valid)
 
 /-! ## the hypotheses are needed, and are satisfiable -/
 
-/-- a leap second is a valid value (and round-trips by `time_rt`) but has no bounds in the code -/
-theorem leap_second_valid_without_bounds :
+/-- a leap second is a valid value, round-trips (`time_rt`) and has bounds in chrono's leap-second
+representation (second 59, 1 000 000 … 1 999 999 µs) -/
+theorem leap_second_bounds :
     (DicomTime.second 23 59 60).Valid ∧ DicomTime.fromHms 23 59 60 = some (.second 23 59 60) ∧
-      (DicomTime.second 23 59 60).earliest = none ∧ (DicomTime.second 23 59 60).latest = none := by decide
+      (DicomTime.second 23 59 60).earliest = some ⟨23, 59, 59, 1000000⟩ ∧
+      (DicomTime.second 23 59 60).latest = some ⟨23, 59, 59, 1999999⟩ ∧
+      (DicomTime.fraction 23 59 60 5 6).exact = some ⟨23, 59, 59, 1000005⟩ := by decide
 
 /-- 30 February is accepted by `from_ymd` (day 1..31) but denotes no day: no bounds -/
 theorem feb30_valid_without_bounds :
